@@ -8,10 +8,24 @@ import (
 )
 
 type FileStream struct {
-	reader    io.Reader
+	reader    *eofReader
 	encBuffer []byte
 	path      string
 	hasRead   bool
+}
+
+// eofReader remembers that the underlying reader has reported the end of the file
+type eofReader struct {
+	r   io.Reader
+	eof bool
+}
+
+func (e *eofReader) Read(p []byte) (int, error) {
+	n, err := e.r.Read(p)
+	if err == io.EOF {
+		e.eof = true
+	}
+	return n, err
 }
 
 const (
@@ -31,7 +45,7 @@ func NewFileStream(path string) (*FileStream, error) {
 	}
 
 	return &FileStream{
-		reader:    reader,
+		reader:    &eofReader{r: reader},
 		encBuffer: []byte{},
 		path:      path,
 		hasRead:   false,
@@ -47,9 +61,11 @@ func (f *FileStream) ReadAll() ([]rune, error) {
 		}
 
 		if len(res) == 0 {
-			// no pending bytes: EOF. Otherwise an unfinished sequence is waiting for
-			// more bytes - read on (reaching EOF with pending bytes yields an error)
-			if len(f.encBuffer) == 0 {
+			// a read that yields no character is not the end of the file: it may have
+			// delivered only the byte-order mark (a pipe whose writer pauses after it) or
+			// part of a sequence. Stop when the reader has reported EOF (reaching EOF
+			// with pending bytes yields an error)
+			if f.reader.eof {
 				break
 			}
 			continue
